@@ -80,44 +80,45 @@ Proof. exact lexer_tok_in_lex. Qed.
 Print Assumptions cssparse_lexer_tok_in_lex.
 
 (* C08 (partial): a stylesheet whose lexer token list is, in document order, a sequence of events (ev, WellFormed.v)
-       EOpen:   (ws? selector-token)+ ws? '{'
-       EDecl:   ws? ident ws? ':' (ws? value-token)+ ws? ';'
-       EClose:  ws? '}'
-       EComment: ws? comment          EToken: ws? CDO | ws? CDC          (both at the top level only)
-       ECustom: ws? custom-property-name ws? ':' raw-token* ';'          (inside a ruleset; raw tokens include
-                whitespace and comments, no ';' '}' ')' ']' at bracket level 0 - raw_ok / raw_lv)
-       EAtRule: ws? at-keyword (ws? prelude-token)* ws? ';'       EBeginAtRule: ... '{'       EEndAtRule: ws? '}'
-                (at the top level and inside the rule block of an at-rule; h = the hash parseAtRule computes from the
-                lower-cased name without vendor prefix - at_rule_h; a block is opened only for the names whose hash
-                selects a rule block: @media, @supports, @layer, @keyframes, @document - at_state h = SAtRuleRuleList)
-   that nest properly (evs_ok over the stack of open blocks: declarations and custom properties only inside a
-   ruleset, rulesets and at-rules at the top level and inside an at-rule block, nested rulesets inside rulesets, every
-   '}' closes the innermost block, everything closed at the end; any depth), followed by ws?
-   (ws: a Whitespace token; selector-/value-token: any token but whitespace, comment, '{', '}', ';', with brackets
-   and function parentheses balanced - toks_ok / lv_after; the first token of a top-level selector is none of CDO,
+       EOpen:    (ws? selector-token)+ ws? '{'                                      EClose:  ws? '}'
+       EDecl:    ws? ident ws? ':' (ws? value-token)+ [ws? ';']
+       ECustom:  ws? custom-property-name ws? ':' raw-token* [';']
+       EAtRule:  ws? at-keyword (ws? prelude-token)* [ws? ';']
+       EBeginAtRule: ws? at-keyword (ws? prelude-token)* ws? '{'                    EEndAtRule:  ws? '}'
+       EComment: ws? comment          EToken: ws? CDO | ws? CDC
+   that nest properly (evs_ok over the stack of open blocks - ruleset, rule block of @media / @supports / @layer /
+   @keyframes / @document, declaration block of @font-face / @page, the kind decided by the hash parseAtRule computes
+   from the lower-cased name without vendor prefix, at_st; ToHash is total, so no hypothesis about it is left):
+   declarations and custom properties inside a ruleset or a declaration block; rulesets anywhere (nested ones inside
+   such blocks); at-rules anywhere; comments, CDO and CDC at the top level; a unit written without its ';' is
+   followed directly by the '}' of its block (the usual way to write the last declaration: the parser reads the '}'
+   with that unit and reports the end of the block on the next call with the synthesised "}"); every '}' closes
+   the innermost block; everything closed at the end; any depth), followed by ws?
+   (ws: a Whitespace token; selector-/value-/prelude-token: any token but whitespace, comment, '{', '}', ';', with
+   brackets and function parentheses balanced - toks_ok / lv_after; raw tokens include whitespace and comments, no
+   ';' '}' ')' ']' at bracket level 0 - raw_ok / raw_lv; the first token of a top-level selector is none of CDO,
    CDC, at-keyword, custom-property name - sel_first; the first token of a nested selector is an identifier, a hash,
    ':', '[' or a delimiter other than '*' - nest_first; '*' is the IE-hack path of parseDeclarationList, the known
-   finding conservation-iehack, and is the exact exception; no comments inside rulesets)
+   finding conservation-iehack, and is the exact exception)
    yields exactly one unit per event, in order:
    - BeginRuleset with Values() = expected_sel: the selector tokens in order with a single space token exactly where
      the source has whitespace between two tokens neither of which is a combinator  , > + ~  and that are not inside
-     an attribute selector [ ] (whitespace before the first token and before '{' is dropped) - the same rule for
-     top-level and nested rulesets (after fix dd2c98e);
+     an attribute selector [ ] - the same rule for top-level and nested rulesets; EndRuleset;
    - Declaration with the lower-cased property name and Values() = expected_vals: the value tokens in order with a
      single space token exactly where the source has whitespace between two value tokens neither of which is one of
-     the punctuation bytes  , / : ! =  (whitespace before the first and after the last value token, around ':' and
-     ';', '{' and '}' is dropped);
-   - EndRuleset; Comment with the comment as data; Token with the CDO / CDC token as data;
+     the punctuation bytes  , / : ! = ;
    - CustomProperty with the name as data and Values() = one CustomPropertyValue token whose bytes are the
-     concatenation of the raw tokens, i.e. the exact source text between ':' and ';';
+     concatenation of the raw tokens, i.e. the exact source text after ':' up to the ';' or '}';
    - AtRule / BeginAtRule with the lower-cased at-keyword as data and Values() = at_buf: the prelude tokens in order
      with a single space token exactly where the source has whitespace before a token that is not ',' ':' or ')',
-     does not follow ',' ':' or '(' and is not a '(' or '[' directly after the at-keyword (so the whitespace after
-     the at-keyword is kept before a word); EndAtRule;
+     does not follow ',' ':' or '(' and is not a '(' or '[' directly after the at-keyword; EndAtRule;
+   - Comment with the comment as data; Token with the CDO / CDC token as data;
    and then the end-of-input report; no parse error is reported.
-   MISSING: at-rules with a declaration block (@font-face, @page) or an unknown block, at-rules inside rulesets,
-   custom properties outside rulesets or ended by '}', comments inside blocks, a last declaration ended by '}'
-   instead of ';' (covered by the well-formed-stylesheet oracle only). *)
+   MISSING: the block of an at-rule with any other name (unknown at-rule: a stream of Token units with whitespace
+   kept), custom properties at the top level, comments inside blocks (the parser drops them; between two value tokens
+   they act like whitespace) - covered by the well-formed-stylesheet oracle only.  Known deviations on inputs of this
+   shape: declarations directly inside an at-rule nested in a ruleset are a parse error (finding
+   wellformed-nested-at-decl); Values() of units without values are stale (finding conservation-stale-values). *)
 Theorem cssparse_wellformed_partial : forall d evs w,
   css_lex d = LexDone (concat (map ev_toks evs) ++ optws w) -> evs_ok [] evs ->
   exists tr, parse_run (length evs + 1) (new_parser d false) = POk tr /\
